@@ -629,7 +629,11 @@ def check_read_noraise(ctx):
         ctx.violated('READ-NORAISE', func,
                      f'{cls_} can leave read_env: {origin}', at=func.where(),
                      detail={'witness_chain': chain})
-    if not esc:
+    if not esc and ana.opaque_hits:
+        ctx.undecided('READ-NORAISE', func, f'what leaves read_env is decided '
+                      f'by the exit handler of {sorted(ana.opaque_hits)[0]}',
+                      at=func.where())
+    elif not esc:
         ctx.holds('READ-NORAISE', func,
                   f'no exception leaves read_env '
                   f'({len(ana.functions)} functions, {ana.n_raise_sites} '
